@@ -649,7 +649,7 @@ func runC17(c *ev.Ctx) {
 	c.Rule = "each case = (sequence, test, parameter, transformation): the library's result on the transformed sequence must equal its result on the original within 1e-8 (monobit Q -> 1-Q under complement, ones<->zeros for longest run, forward<->backward cusum under reversal). Transformations: complement, reversal, cyclic rotation by seeded amounts incl. 1, n-1, m-1 (overlapping, approximate entropy), seeded permutation of whole blocks and rewriting of the discarded tail (block frequency, poker, longest run, rank, linear complexity at the test's own block length). non-trivial = original P in (1e-9, 1-1e-9); distinct = distinct (sequence, test, parameter, transformation, amount)"
 	c.Assumptions = []string{"metamorphic: no reference values; the library is compared with itself"}
 	seed := uint64(c.Seed)
-	lens := []int{128, 200, 1000, 1024, 4099, 8967, 20000, 33333, 100000}
+	lens := []int{128, 200, 1000, 1024, 4099, 8192, 8967, 20000, 33333, 65536, 100000} // incl. exact multiples of every block size
 	nrot := 16
 	if c.Thorough() {
 		lens = append(lens, 1000000)
